@@ -37,6 +37,10 @@ CHECKS = {
    technique="multi-run trace validation: real runs of record sequences A, B, A.B, permutations and single-position replacements by failing records, for all 7 formats, checked by TLC against the Concat/Perm/Replace laws of Trace_Runs.tla",
    text="Seeded record sequences drawn from per-format pools (ok records; records failing by type cast, multiple xpath matches, custom function error) are transformed alone, concatenated, permuted and with one position replaced; TLC checks the concatenation, permutation and replacement laws on every recorded family. Exploration: sequences are sampled; pools are small.",
    note="Trusted: TLC; the record pools (validated on every run). Only (class, output bytes) are compared."),
+ "C13": dict(cat="model_checking", design="5/C13",
+   technique="TLC checks the cached evaluator of Eval.tla against the cache-free reference on the declaration families the property names; real runs under all 24 cache/pool configurations (cold and warm) are recorded and validated by TLC against Trace_Runs.tla (every transcript equals the all-off transcript)",
+   text="Design: for textually identical declarations in anchoring/non-anchoring positions (and, thorough, all 3-node trees) TLC shows evaluation with the result cache (key as in the code) equals evaluation without it. Code: the whole corpus plus schemas with identical declarations, shared templates, xpath_dynamic and javascript_with_context on record and ancestor is run under every on/off/capacity-1 combination of node pool, transform cache, JS caches and xpath cache, twice per configuration; TLC requires equality with the all-off run. One known finding (node-JSON cache on an ancestor) is listed in known_findings.json.",
+   note="Trusted: TLC, lru/sync.Pool implementations. Cache switches are verif-tagged setters; the xpath cache has no off switch (capacity 1 instead)."),
 }
 
 def main():
